@@ -10,9 +10,9 @@ def main(chk: core.Check, replay):
         return core.replay_generic(chk, replay)
     quick = chk.tier == "quick"
     run_expr_corpus(chk, "C03", "jax", exprcorpus.QUICK_LEVELS if quick else exprcorpus.THOROUGH_LEVELS,
-                    cap=500 if quick else 6000, batch=40)
+                    cap=500 if quick else 2500, batch=40)
     # jitted: a sample (tracing + compilation dominates)
-    run_expr_corpus(chk, "C03", "jax-jit", [4, 5], cap=80 if quick else 600, batch=20, styles=("tmin",))
+    run_expr_corpus(chk, "C03", "jax-jit", [4, 5], cap=80 if quick else 300, batch=20, styles=("tmin",))
     run_scheme_corpus(chk, "C03", {"explicit_euler", "generalized_rush_larsen", "hybrid_rush_larsen", "generate"},
                       backend="jax", fams=[3, 4] if quick else [1, 2, 3, 4])
     structural.run(chk, "C03", quick_models=120, thorough_models=1500, layout=True)
